@@ -8,6 +8,8 @@ _SETUP = False
 CRASHES = []
 TIMEOUT_S = 0.25
 HANG_S = 30.0
+STUCK_S = 4.0        # how long an unkillable tearDown stays stuck
+STUCK_HANG_S = 2.0   # execute() not back by then although the tearDown timeout is 0.05 s: reported as O:HANG
 ORIG_JOIN_INTERVAL = None
 
 
@@ -238,6 +240,15 @@ class PlugsSupport(object):
         if beh.get('td') == 'hang':
           while True:
             time.sleep(0.002)
+        if beh.get('td') == 'stuck':
+          # a tearDown that cannot be killed (swallows the termination request, as a blocking C call would): it must be
+          # abandoned after plug_teardown_timeout_s, not waited for
+          deadline = time.time() + STUCK_S
+          while time.time() < deadline:
+            try:
+              time.sleep(0.005)
+            except BaseException:  # pylint: disable=broad-except
+              pass
       self.classes[idx] = type('Plug%d' % idx, (base_plugs.BasePlug,), {'__init__': init, 'tearDown': tear_down})
 
   def attach(self, phase, node):
@@ -398,7 +409,8 @@ def run_test_case(case, plugs_factory=None, callbacks=None):
         box['exc'] = e
     runner = threading.Thread(target=_go, name='verif-execute', daemon=True)
     runner.start()
-    runner.join(HANG_S)
+    stuck = any((b or {}).get('td') == 'stuck' for b in (case.get('plugs') or {}).values())
+    runner.join(STUCK_HANG_S if stuck else HANG_S)
     if runner.is_alive():
       # execute() did not return: report it as an observation, the stuck threads are abandoned
       return {'tokens': ['O:HANG'] + list(ctx.events), 'ret': False, 'crashes': [], 'record': None, 'ctx': ctx,
